@@ -228,8 +228,9 @@ def d3_companion(ctx):
               f"only {sorted(sufs)} can be selected when the reader is opened through the metadata file", key="candidates")
 
 
-def d5_cached_size(ctx):
-    ctx.rule("D5", "the size that determines the exposed sample count is measured on the current file_bin (no stale cached size after an in-place (de)compression)")
+def d5_cached_size(ctx, rule_id="D5", unconditional=False):
+    ctx.rule(rule_id, "the size that determines the exposed sample count is measured on the current file_bin"
+             + (" at open time, not the size cached by the constructor" if unconditional else " (no stale cached size after an in-place (de)compression)"))
     repo = ctx.repo
     fo = repo.fn("spikeglx.Reader.open")
     du = DefUse(fo.node)
@@ -266,6 +267,11 @@ def d5_cached_size(ctx):
     if not uses:
         raise AnchorMissing("Reader.open: duration rewrite not found")
     for st, deps in uses:
+        if unconditional:
+            ctx.check("self.nbytes" not in deps, fo, st, st, "the repaired duration comes from a fresh stat of the file at open time",
+                      "the repaired duration is derived from self.nbytes, which the constructor cached: a reader created with open=False (or re-opened) on a recording that "
+                      "is still growing / was truncated in between exposes the old size - too few frames, or more than exist (mmap error)", key="cached-size")
+            continue
         ok = not ("self.nbytes" in deps and stale_possible)
         ctx.check(ok, fo, st, st, "the repaired duration is computed from a fresh measurement of the current file (or the cached size is refreshed wherever file_bin is rebound)",
                   f"the repaired duration is derived from the cached self.nbytes, but {', '.join(f.qualname.split('.')[-1] for f in stale_possible)} rebind self.file_bin without refreshing it: "
